@@ -79,6 +79,15 @@ Theorem rename_keeps_referring_fields : forall i j d n p f,
   forall k, derived_view (rename_field i j d) n k = derived_view d n k.
 Proof. exact (rename_preserves_references 1 (le_n 1)). Qed.
 
+(* fields with several inputs (MULTIPLY, MPLEX, WINDOW, INDIR, scalar references): after gd_rename with
+   GD_REN_DATA|GD_REN_UPDB every input position of every field resolves to a field holding the same data *)
+Theorem rename_keeps_every_input_position : forall i j d n q f,
+  NoDup (map fid (m_fields d)) -> ~ In j (map fid (m_fields d)) -> ~ In j (map fst (m_derived d)) ->
+  input_field d n q = Some f ->
+  exists f', input_field (rename_fieldm i j d) (ren i j n) q = Some f' /\
+             ffrag f' = ffrag f /\ fty f' = fty f /\ fspf f' = fspf f /\ fvals f' = fvals f.
+Proof. exact rename_keeps_every_input. Qed.
+
 (* the hypotheses are satisfiable *)
 Example db_ok_inhabited : db_ok (mkDb [mkCfg Bin SexBig 1; mkCfg Text SexLittle 0] [mkField 7 0 UINT16 1 [[1%Z]]; mkField 9 1 UINT8 2 []] [(3, 7)]).
 Proof.
